@@ -21,7 +21,7 @@ def cov_c07(st, tier):
 
 ENGINES = [
     {"name": "E-A netsim", "path": "engine/", "serves_properties": ["C01", "C02", "C10", "C14", "C15"], "kind_free_text": "real client + real server main loops as coroutines in one process under a virtual clock/network/tun; fork-at-choice-point DFS over per-datagram fates, deviation-bounded"},
-    {"name": "E-B adversary", "path": "engine/", "serves_properties": ["C03", "C04", "C13", "C14", "C16", "C20"], "kind_free_text": "depth-bounded explicit-state search over message alphabets against the real server/client loop, exact-state hashing of the whole image"},
+    {"name": "E-B adversary", "path": "engine/", "serves_properties": ["C03", "C04", "C12", "C13", "C14", "C15", "C16", "C20"], "kind_free_text": "depth-bounded explicit-state search over message alphabets against the real server/client loop, exact-state hashing of the whole image"},
     {"name": "E-C enumerators", "path": "props/", "serves_properties": ["C07", "C08", "C09", "C17", "C18", "C19"], "kind_free_text": "exhaustive enumeration of finite input families through the real pure functions, compared with independent references"},
 ]
 
@@ -205,12 +205,37 @@ def cov_c13(st, tier):
         "system_calls_checked": st["system_calls"], "ifconfig_address_commands": st["ifconfig_ip_ok"], "ifconfig_mtu_commands": st["ifconfig_mtu_ok"],
         "client_gave_up_errx": st["client_exits"], "client_retried": st["client_retries"], "logins_accepted": st["logins_accepted"], "presentations": st["presentations"],
         "sanitizer_notes_for_C06": st.get("sanitizer_notes_for_C06", 0),
-        "bounds": {"fields": "52 client-address x 8 server-address x 12 mtu x 9 netmask strings + 11 structural replies",
+        "bounds": {"fields": "107 client-address strings (3 dotted quads of length 7, 8 and 15 x 28 suffixes, 23 odd forms) x 8 server-address x 12 mtu x 9 netmask strings + 11 structural replies",
                    "product": "full product under all 16 presentations" if tier == "thorough" else "full product under NULL and PRIVATE, field-wise under the other 14 presentations"},
     }
 
 
+def cov_c12(st, tier):
+    return {
+        "states": st["shapes"], "transitions": st["deliveries"], "traces_validated_against_impl": st["deliveries"],
+        "evaluations": st["deliveries"], "distinct_nontrivial": st["distinct_outcomes"],
+        "rule": "state = one (pre-state, datagram shape) pair; transition = one delivery of that datagram to the real server loop / real client loop with one of 7 residues in the receive buffer, "
+                "from the same snapshotted pre-state. The outcome (outputs, exit, post-state hash) must be identical across the 7 residues. distinct = distinct (side, number of outputs, output hash) reference outcomes; "
+                "non-trivial = the datagram caused a reaction (answer, forward, tun write)",
+        "shapes": st["shapes"], "server_shapes": st["server_shapes"], "client_shapes": st["client_shapes"], "shapes_with_a_reaction": st["shapes_with_a_reaction"], "residues": st["residues"],
+        "sanitizer_notes_for_C05_C06": st.get("sanitizer_notes_for_C05_C06", 0),
+        "bounds": {"residues": "zeros, 0xff, tail of the untruncated original, labels of another session's tunnel request (+1 byte shifted), another client's datagram, compression pointers",
+                   "server_pre_states": "no session; two lazy sessions with held pings; session in mid upstream packet (forwarding on)",
+                   "client_pre_states": "tunnelling after a real handshake with -T NULL, TXT, CNAME, MX, SRV, A",
+                   "shapes": "every truncation of each seed message (%s), compression pointers to offsets len-6..len+2 in three name positions, last label to/past the end, RDLENGTH too small/large, TXT string and target-name labels past the end, 0..12 byte headers" % ("every length" if tier == "thorough" else "every length near both ends, every 2nd/3rd in between")},
+    }
+
+
 PROPS = {
+    "C12": {
+        "harness": "C12.c", "flavor": "ubsan", "engine": "E-B adversary",
+        "tiers": {"quick": {"budget_s": 120}, "thorough": {"budget_s": 600}},
+        "coverage": cov_c12,
+        "level_text": "Differential, exhaustive over (pre-state x datagram shape x residue): the virtual recvfrom/recvmsg writes a chosen residue into the caller's 64 KB buffer beyond the datagram; from one snapshotted pre-state the same datagram is delivered once per residue to the real server loop (three pre-states, forwarding on) and to the real client loop (six record types, after a real handshake against the real server). Everything observable - each emitted datagram with destination, each tun write, process exit, and the hash of the image's static state and of users[] afterwards - must not depend on the residue.",
+        "level_note": "Struct padding that the code copies from its stack but never reads (the forwarding ring entries) is hashed field by field, not raw. Shapes are complete families around seed messages, not all byte strings. The receive buffer itself is not part of the compared state.",
+        "technique": "exhaustive differential exploration of the real receive paths from snapshotted protocol states: same datagram, enumerated buffer residues, outcome equality as oracle",
+        "assumptions": COMMON_ASSUME + ["the virtual receive calls fill the buffer beyond the returned length with the chosen residue (the kernel would leave earlier contents there)"],
+    },
     "C13": {
         "harness": "C13.c", "flavor": "ubsan", "engine": "E-B adversary",
         "tiers": {"quick": {"budget_s": 120}, "thorough": {"budget_s": 600}},
